@@ -29,7 +29,11 @@ impl Gen {
     }
     /// uniform in 0..n (n>0)
     pub fn below(&mut self, n: usize) -> usize {
-        assert!(n > 0);
+        if n == 0 {
+            // an empty range (e.g. an item the library failed to produce): nothing to choose
+            let _ = self.0.next_u64();
+            return 0;
+        }
         (self.0.next_u64() % (n as u64)) as usize
     }
     pub fn chance(&mut self, num: u32, den: u32) -> bool {
